@@ -10,6 +10,7 @@ import (
 	"testing/iotest"
 	"time"
 
+	"github.com/tormoder/fit"
 	"github.com/tormoder/fit/dyncrc16"
 )
 
@@ -187,7 +188,23 @@ func c14StreamTraces(c *Ctx) {
 	nops := 0
 	for i := 0; i < ntr; i++ {
 		tr := crcTrace{ID: i + 1}
+		if i%5 == 2 {
+			// the library uses the same package for its own checks, also failing
+			// ones: a hash obtained afterwards still starts from zero
+			bad := fit.NewHeader(fit.V20, true)
+			bad.CRC = uint16(1 + rng.Intn(65535))
+			bad.DataSize = uint32(rng.Intn(100000))
+			bad.CheckIntegrity()
+			junk := make([]byte, 40)
+			rng.Read(junk)
+			copy(junk, []byte{14, 0x10, 0x43, 0x08, 20, 0, 0, 0, '.', 'F', 'I', 'T'})
+			fit.CheckIntegrity(bytes.NewReader(junk), false)
+			fit.DecodeHeader(bytes.NewReader(junk))
+		}
 		h := dyncrc16.New()
+		if i%5 == 2 {
+			tr.Ops = append(tr.Ops, crcOp{Op: "sum16", V: int(h.Sum16())})
+		}
 		n := 2 + rng.Intn(12)
 		if i < 3 {
 			// one write longer than any 16-bit length, on a non-zero state
@@ -227,7 +244,32 @@ func c14StreamTraces(c *Ctx) {
 			}
 			tr.Ops = append(tr.Ops, crcOp{Op: "copy", Data: toInts(d), N: int(cn)}, crcOp{Op: "sum16", V: int(h.Sum16())})
 		}
+		if i%4 == 2 {
+			// the hash fed with strings (io.WriteString, io.Copy from a strings.Reader): bytes above 0x7F are bytes
+			d := make([]byte, 1+rng.Intn(60))
+			rng.Read(d)
+			d[0] |= 0x80
+			var cn int64
+			if (i/4)%2 == 0 {
+				k, _ := io.WriteString(h, string(d))
+				cn = int64(k)
+			} else {
+				cn, _ = io.Copy(h, strings.NewReader(string(d)))
+			}
+			tr.Ops = append(tr.Ops, crcOp{Op: "copy", Data: toInts(d), N: int(cn)}, crcOp{Op: "sum16", V: int(h.Sum16())})
+		}
 		for j := 0; j < n; j++ {
+			if j == n/2 && i%3 == 0 {
+				// the running sum itself written as the next two bytes, in either byte order
+				// (little-endian is the trailer of a FIT file and must give zero; big-endian must not be special)
+				sum := h.Sum16()
+				two := []byte{byte(sum >> 8), byte(sum)}
+				if i%2 == 0 {
+					two = []byte{byte(sum), byte(sum >> 8)}
+				}
+				wn, _ := h.Write(two)
+				tr.Ops = append(tr.Ops, crcOp{Op: "write", Data: toInts(two), N: wn}, crcOp{Op: "sum16", V: int(h.Sum16())})
+			}
 			switch x := rng.Intn(10); {
 			case x < 5:
 				l := rng.Intn(9)
